@@ -8,6 +8,7 @@ import pickle
 import shutil
 import tempfile
 from fractions import Fraction as F
+from fractions import Fraction
 
 import numpy as np
 
@@ -137,13 +138,17 @@ def check_samples(ctx):
                 break
             d = rng.randint(1, 4)
             n = rng.randint(1, 50)
+            if it < 4:
+                n = [40, 80, 40, 80][it]          # cumulative weight of the first / second sample equals 0.025 exactly
             pnames = sorted(rng.sample(['alpha', 'b', 'Zeta', 't1', 't10', 't2', 'mu'], d))
             cols = {p: np.array([rng.randint(-20, 20) / 4.0 for _ in range(n)]) for p in pnames}
+            if it < 4:
+                cols = {p: np.array(rng.sample(range(-2 * n, 2 * n), n)) / 4.0 for p in pnames}      # distinct values
             extra = {'d': np.abs(np.array([rng.randint(0, 20) / 4.0 for _ in range(n)])), 'S1': np.arange(n) * 1.0}
             keys = list(cols) + list(extra)
             rng.shuffle(keys)                                  # the outputs dict order is NOT the parameter order
             outputs = {k: (cols[k] if k in cols else extra[k]) for k in keys}
-            wkind = rng.choice(['none', 'pos', 'zeros'])
+            wkind = rng.choice(['none', 'pos', 'zeros']) if it >= 4 else 'none'
             w = None if wkind == 'none' else np.array([rng.choice([1, 2, 3] if wkind == 'pos' else [0, 0, 1, 2]) * 1.0 for _ in range(n)])
             if w is not None and w.sum() == 0:
                 w[0] = 1.0
@@ -162,6 +167,26 @@ def check_samples(ctx):
                 if lo != weighted_sample_quantile(cols[p], 0.025, weights=w) or hi != weighted_sample_quantile(cols[p], 0.975, weights=w) \
                         or lo not in cols[p] or hi not in cols[p] or lo > hi:
                     ctx.fail_input(case, 'interval of %s is not the pair of weighted 2.5%%/97.5%% quantiles of the stored samples' % p)
+                # the definition itself, in exact arithmetic (weights are small integers): the smallest sample whose cumulative
+                # normalised weight reaches alpha.  Where a cumulative weight EQUALS alpha the float sum may fall on either side
+                # (both neighbours accepted) - except for 40 / 80 unit weights, where 1/40 and 2/80 are computed exactly
+                for alpha_q, got_q in ((Fraction(25, 1000), lo), (Fraction(975, 1000), hi)):
+                    wi = [Fraction(1)] * n if w is None else [Fraction(int(v)) for v in w]
+                    order_x = sorted(range(n), key=lambda i: cols[p][i])
+                    tot, cum, allowed = sum(wi), Fraction(0), None
+                    for pos, i in enumerate(order_x):
+                        cum += wi[i]
+                        if cum / tot >= alpha_q:
+                            allowed = {float(cols[p][i])}
+                            exact_float = w is None and n in (40, 80) and alpha_q == Fraction(25, 1000)
+                            if cum / tot == alpha_q and not exact_float:
+                                nxt = [j for j in order_x[pos + 1:] if wi[j] > 0]
+                                if nxt:
+                                    allowed.add(float(cols[p][nxt[0]]))
+                            break
+                    if allowed is not None and float(got_q) not in allowed:
+                        ctx.fail_input(case, 'interval bound %r of %s is not the weighted %s-quantile of the stored samples by its definition (%s)'
+                                       % (float(got_q), p, float(alpha_q), sorted(allowed)), sorted(allowed), float(got_q))
                 reqs.append(dict(op='C16.wmean', v=[q2j(v) for v in cols[p]], w=None if w is None else [q2j(v) for v in w]))
                 meta.append((case, float(s.sample_means[p])))
             # save -> read round trips
